@@ -15,7 +15,7 @@ import ast
 from typing import Any, Dict, List, Optional
 
 from ..kit import Kit, is_call, key, norm, atom_truthy_of
-from ..index import dotted, walk_shallow, unparse, names_read
+from ..index import dotted, walk_shallow, unparse, names_read, call_name, iter_calls
 from ..absint import evaluate, product, Obj, Unknown, NotEvaluable
 from ..cfg import Node
 
@@ -596,8 +596,10 @@ def r5(k: Kit) -> None:
              'the five send states x two receive states (helper predicates '
              'inlined): unless a CLOSE is already pending or sent, close() '
              'moves to close_pending and flushes (which sends CLOSE once the '
-             'buffer is empty) and abort() sends CLOSE at once - also after '
-             'a local EOF; the receive side is discarded unless closed')
+             'buffer is empty); abort() sends CLOSE at once unless it was '
+             'sent - also after a local EOF and also when close() left it '
+             'pending behind unsent data; the receive side is discarded '
+             'unless closed')
     cls = idx.cls('channel.SSHChannel')
     for name, want_call in (('close', 'self._flush_send_buf'),
                             ('abort', 'self._close_send')):
@@ -628,11 +630,22 @@ def r5(k: Kit) -> None:
                     return
                 acted = bool(o.called(want_call))
                 should = ss not in ('close_pending', 'closed')
+                if name == 'abort':
+                    # a CLOSE that close() left pending behind unsent data
+                    # is forced out; _close_send itself sends nothing once
+                    # the state is 'closed' (C09.R4), so a call there is idle
+                    should = ss != 'closed'
+                    if ss == 'closed':
+                        acted = False
                 if acted != should:
                     bad = bad or (
                         f'{name}() with send state {ss!r}: '
                         f'{want_call} {"not " if should else ""}called'
-                        + (' - no CHANNEL_CLOSE is ever sent, so the peer '
+                        + (' - close() then abort() while the peer keeps '
+                           'its window shut: the CLOSE stays queued behind '
+                           'data that is never sent and wait_closed() pends '
+                           'for ever' if should and ss == 'close_pending' else
+                           ' - no CHANNEL_CLOSE is ever sent, so the peer '
                            'never answers with CLOSE and wait_closed() / '
                            'run() hang' if should else
                            ' - CLOSE would be sent twice'))
@@ -828,3 +841,171 @@ def run(idx, rep, tier):
     from .c14 import sftp_init_guarded
     rep.rule('C09.R11', 'closing an sftp channel before FXP_INIT, or a malformed version exchange, ends that session only (= C14.R14): exit() runs, the connection and its other sessions live on')
     sftp_init_guarded(k, 'C09.R11')
+    rep.rule('C09.R12', 'redirect writers fed through a queue '
+             '(_StreamWriter._feed, _AsyncFileWriter._writer): every item '
+             'taken from the queue is marked done on every path, the failing '
+             'one included, and when the feeder ends - normally or with an '
+             'exception from write() / drain() - it clears _write_task and '
+             'empties the queue, so that close() queues nothing more and '
+             'the queue.join() that wait_closed() awaits can finish')
+    _n = 0
+    for _q in ('process._StreamWriter._feed', 'process._AsyncFileWriter._writer'):
+        _fi = k.func(_q)
+        _g = k.cfg(_fi)
+        _gets = [n for n, c in k.calls_named(_fi, 'get', 'self._queue')]
+        _done = [n.id for n, c in k.calls_named(_fi, 'task_done',
+                                                'self._queue')]
+        _clr = [n.id for n, v in k.stores_to(_fi, 'self._write_task')
+                if isinstance(v, ast.Constant) and v.value is None]
+        rep.floor('C09.R12', f'queue reads in {_fi.qual}', len(_gets), 1)
+        for _gn in _gets:
+            _n += 1
+            _bad = None
+            for _b, _lab in _g.succ[_gn.id]:
+                if _lab == 'exc':
+                    continue
+                for _dst in (_g.exit, _g.raise_exit):
+                    _w = _g.path(_b, _dst, blocked_nodes=_done)
+                    if _b in _done:
+                        _w = None
+                    _bad = _bad or _w
+            rep.check(_bad is None, 'C09.R12',
+                      key(_fi, 'every queued item is marked done'),
+                      'task_done() on every path after get(), exceptions '
+                      'included',
+                      'an item taken from the queue is not marked done when '
+                      'writing it fails: the feeder task dies, and the '
+                      'queue.join() registered by close() - which '
+                      'wait_closed() / wait() await - never completes '
+                      '(stdout redirected to a StreamWriter whose peer '
+                      'resets)', k.loc(_fi, _gn),
+                      _g.describe_path(_bad) if _bad else None)
+        _w = _g.path(_g.entry, _g.raise_exit, blocked_nodes=_clr)
+        rep.check(bool(_clr) and _w is None, 'C09.R12',
+                  key(_fi, 'a dead feeder is not waited for'),
+                  'self._write_task = None before an exception leaves',
+                  'the feeder can die with _write_task still set: close() '
+                  'then queues its end marker for a task that no longer '
+                  'runs and waits for it for ever', _fi.loc(_fi.node),
+                  _g.describe_path(_w) if _w else None)
+    r13(k)
+    r14(k)
+    # C09.R15: shared rule
+    from .c11 import r2 as _c11r2
+    rep.rule('C09.R15', 'deferred packets are never dropped (= C11.R2): the queue is swapped for a fresh list before it is replayed, so a CLOSE / EOF re-deferred by a re-key that the flush itself triggers is kept and the channel can finish closing')
+    _before = len(rep.obligations)
+    _c11r2(k)
+    for o in rep.obligations[_before:]:
+        o.rule = 'C09.R15'
+    from .c08 import readuntil_gives_up_when_paused
+    rep.rule('C09.R16', 'readline() / readuntil() do not wait while the stream is paused (= C08.R11): a reader looking for a separator further away than one window gives up instead of waiting for data that cannot arrive - also after the peer sent EOF and closed')
+    readuntil_gives_up_when_paused(k, 'C09.R16')
+
+
+def r13(k: Kit) -> None:
+    """A session open that fails after the channel was opened closes it."""
+    rep = k.rep
+    rep.rule('C09.R13', 'SSHClientChannel.create: once _open() has '
+             'returned, every raise of ChannelOpenError (pty, X11 attach, '
+             'x11-req, exec/shell/subsystem refused) is preceded by '
+             'self.close() - the caller never gets the channel, so nobody '
+             'else can close it and its session would get connection_made '
+             'but no connection_lost while the connection lives')
+    fi = k.func('channel.SSHClientChannel.create')
+    g = k.cfg(fi)
+    opens = [n for n, c in k.calls_named(fi, '_open', 'self')]
+    rep.floor('C09.R13', 'channel open in create', len(opens), 1)
+    closes = [n.id for n, c in k.calls_named(fi, 'close', 'self')]
+    raises = [n for n in g.nodes if isinstance(n.ast, ast.Raise) and
+              isinstance(n.ast.exc, ast.Call) and
+              call_name(n.ast.exc) == 'ChannelOpenError']
+    rep.floor('C09.R13', 'ChannelOpenError raises in create', len(raises), 3)
+    for r in raises:
+        bad = None
+        for o in opens:
+            for b, lab in g.succ[o.id]:
+                if lab == 'exc':
+                    continue
+                w = [b] if b == r.id else g.path(b, r.id,
+                                                 blocked_nodes=closes)
+                bad = bad or w
+        rep.check(bad is None, 'C09.R13',
+                  key(fi, f'closed before {norm(r.ast)[:60]}'),
+                  'self.close() on every path from the open to this raise',
+                  'the open fails with ChannelOpenError but the channel '
+                  'that was already opened stays open and registered on '
+                  'both sides; its session never sees connection_lost '
+                  '(create_session(x11_forwarding=True) with an unreadable '
+                  'Xauthority file, or a peer refusing x11-req)',
+                  k.loc(fi, r), g.describe_path(bad) if bad else None)
+
+
+def r14(k: Kit) -> None:
+    """Channel tasks look at the channel again after they waited."""
+    rep = k.rep
+    idx = k.idx
+    rep.rule('C09.R14', 'coroutines a channel starts as connection tasks '
+             '(create_task(self._finish_...())): after every await, the '
+             'request queue is answered (_report_response) and self._conn '
+             'is used only behind a fresh test of self._conn - the channel '
+             'may have been closed and cleaned up while the task waited, '
+             'and an AttributeError in a connection task takes the whole '
+             'connection down')
+    mod = idx.module('channel')
+    tasks = {}
+    for ci in idx.classes.values():
+        if ci.module is not mod:
+            continue
+        for m in ci.methods.values():
+            for c in iter_calls(m.node):
+                if is_call(c, 'create_task', 'self._conn') and c.args and \
+                        isinstance(c.args[0], ast.Call) and \
+                        (dotted(c.args[0].func) or '').startswith('self.'):
+                    nm = dotted(c.args[0].func)[5:]
+                    for sub in idx.classes.values():
+                        if sub.module is mod and ci.qual in [
+                                x.qual for x in idx.mro(sub)]:
+                            t = sub.methods.get(nm)
+                            if t is not None and isinstance(
+                                    t.node, ast.AsyncFunctionDef):
+                                tasks[t.qual] = t
+    conn = atom_truthy_of('self._conn')
+    n_aw = 0
+    for q, fi in sorted(tasks.items()):
+        g = k.cfg(fi)
+        awaits = [n for n in g.nodes if n.ast is not None and any(
+            isinstance(x, ast.Await) for r_ in g.node_roots(n)
+            for x in walk_shallow(r_))]
+        if not awaits:
+            continue
+        n_aw += len(awaits)
+        sinks = [n for n, c in k.call_nodes(fi, lambda c: is_call(
+            c, '_report_response', 'self') or (
+                isinstance(c.func, ast.Attribute) and
+                dotted(c.func.value) == 'self._conn'))]
+        for sk in sinks:
+            bad = None
+            for a in awaits:
+                if a.id == sk.id:
+                    continue
+                for b, lab in g.succ[a.id]:
+                    if b != sk.id and g.path(b, sk.id) is None:
+                        continue
+                    w = [b] if b == sk.id else g.guarded_by(sk.id, conn,
+                                                            start=b)
+                    if w is not None:
+                        bad = bad or w
+            rep.check(bad is None, 'C09.R14',
+                      key(fi, f'{norm(sk.ast)[:50]} after a re-check'),
+                      'guarded by self._conn after every await',
+                      'the task resumes on a channel that was closed '
+                      'meanwhile (_cleanup cleared _conn and _session) and '
+                      'goes on to answer queued requests: auth-agent-req, '
+                      'exec, CLOSE in one burst makes _start_session '
+                      'dereference None in a connection task, '
+                      'internal_error() then closes the whole connection '
+                      'and every other channel on it', k.loc(fi, sk),
+                      g.describe_path(bad) if bad else None)
+    rep.floor('C09.R14', 'channel task coroutines', len(tasks), 3)
+    rep.floor('C09.R14', 'awaits in channel tasks', n_aw, 3)
+
